@@ -148,9 +148,9 @@ func checkC02(e *Env) {
 		for _, b := range rp.Blocks {
 			for _, in := range b.Instrs {
 				if al, ok := in.(*ssa.Alloc); ok {
-					switch al.Comment {
+					switch cn := prov.CanonLocal(rp, al.Comment); cn {
 					case "fallbackUrlLength", "sigLengthBytes", "headerLengthBytes":
-						widths[al.Comment] = al.Type().String()
+						widths[cn] = al.Type().String()
 					}
 				}
 			}
@@ -178,6 +178,11 @@ func checkC02(e *Env) {
 	}
 
 	// (d) header maps
+	// (f) the verifier's payload step refuses what MiEncodePayload produced on no ground other than the listed ones
+	vp := e.fn("signedexchange.verifyPayload")
+	rejectionsListed(e, "REJECT", vp, gate.Outcome{Kind: gate.ErrNil, Idx: 1}, noCfg, verifyGatesC01(), "digest header present, decoder constructed, whole payload read")
+	e.requireResult("AGREE", vp, gate.Outcome{Kind: gate.ErrNil, Idx: 1}, 0, "call:i*.ReadAll("+tDecoder+"#0)#0", "everything the MI decoder yields for e.Payload")
+	e.R.Floor("REJECT", 3)
 	e.requireResult("AGREE", e.fn("signedexchange.normalizeHeaderValues"), gate.Outcome{Kind: gate.AnyReturn}, 0, `call:strings.Join(param:values,const:",")`, "values joined with ','")
 	for _, name := range []string{"signedexchange.(*Exchange).decodeRequestMap", "signedexchange.(*Exchange).decodeResponseMap"} {
 		countedLoop(e, "FORALL", e.fn(name), "call:(*cbor.Decoder).DecodeMapHeader(param:dec)#0",
